@@ -44,9 +44,12 @@ type report struct {
 	ChanWrapped []string          `json:"chan_wrapped"`
 	Gosched     []string          `json:"gosched"`
 	Knob        map[string]string `json:"knob"`
+	Timers      []string          `json:"timers"`         // real-clock waits the simulator does not own
 	CLI         []string          `json:"cli_redirected"` // process-global facilities redirected in cmd/php-parser
 	CLIMain     bool              `json:"cli_main"`       // func main found and exported as ZZMain
 }
+
+var noKnob bool
 
 var rep = report{Files: map[string]int{}, Knob: map[string]string{}}
 
@@ -300,6 +303,26 @@ func processFile(root, path string, isCmd bool) error {
 	for _, k := range unwrappable(f) {
 		rep.ChanOps = append(rep.ChanOps, rel+":"+k)
 	}
+	// real-clock waits: not under the simulator's control
+	timeName := ""
+	for _, im := range f.Imports {
+		if im.Path.Value == `"time"` {
+			timeName = importName(im)
+		}
+	}
+	if timeName != "" {
+		ast.Inspect(f, func(n ast.Node) bool {
+			if se, ok := n.(*ast.SelectorExpr); ok {
+				if id, ok := se.X.(*ast.Ident); ok && id.Name == timeName && id.Obj == nil {
+					switch se.Sel.Name {
+					case "Sleep", "After", "AfterFunc", "NewTimer", "NewTicker", "Tick":
+						rep.Timers = append(rep.Timers, fmt.Sprintf("%s:%d time.%s", rel, fset.Position(se.Pos()).Line, se.Sel.Name))
+					}
+				}
+			}
+			return true
+		})
+	}
 	// runtime.Gosched() -> zzsim.Gosched()
 	ast.Inspect(f, func(n ast.Node) bool {
 		if c, ok := n.(*ast.CallExpr); ok {
@@ -376,7 +399,7 @@ func processFile(root, path string, isCmd bool) error {
 			if gd, isGen := d.(*ast.GenDecl); isGen && gd.Tok == token.CONST {
 				for _, sp := range gd.Specs {
 					vs := sp.(*ast.ValueSpec)
-					if len(gd.Specs) == 1 && len(vs.Names) == 1 && vs.Names[0].Name == "DefaultBlockSize" {
+					if !noKnob && len(gd.Specs) == 1 && len(vs.Names) == 1 && vs.Names[0].Name == "DefaultBlockSize" {
 						gd.Tok = token.VAR
 						ok = true
 					}
@@ -419,6 +442,7 @@ func processFile(root, path string, isCmd bool) error {
 func main() {
 	root := flag.String("root", "", "scratch copy of the repository")
 	out := flag.String("report", "", "write JSON report here")
+	flag.BoolVar(&noKnob, "noknob", false, "leave DefaultBlockSize a constant")
 	gen := flag.String("gen", "", "write generated harness sources (recorder, knob, site classes) into this directory")
 	flag.Parse()
 	var files []string
